@@ -164,6 +164,7 @@ def run(ctx):
         p = r["percent_fed_from_model"]
         ctx.count((json.dumps(spec, sort_keys=True)[:3000], kind, label), nontrivial=base_opt > 0)
         target = base_opt
+        exp0 = exp
         if exp.startswith("eq*"):
             target = base_opt * float(exp[3:])
             exp = "eq"
@@ -174,7 +175,7 @@ def run(ctx):
             ctx.violation(f"C12:{kind}-monotonicity",
                           f"{kind} perturbation {label}: optimum {base_opt} -> {p} (expected {exp}) on {where}",
                           {"kind": "counterexample", "base": base_spec, "perturbed": spec, "where": where, "label": label,
-                           "base_optimum": base_opt, "perturbed_optimum": p, "expected": exp})
+                           "base_optimum": base_opt, "perturbed_optimum": p, "expected": exp0})
         ctx.sample({"where": where, "perturbation": [kind, label], "base": base_opt, "perturbed": p}, limit=6)
     ctx.notes["input_distribution"] = dist
     ctx.traces = len([b for b in bases if b[2] is not None])
